@@ -693,6 +693,33 @@ def outer(a, b, **k):
     return _np.outer(a, b)
 
 
+class _LogicalUfunc:
+    """np.logical_or / np.logical_and on (possibly symbolic) boolean arrays, with .reduce over a list"""
+
+    def __init__(self, name, op, unit):
+        self.__name__, self._op, self._unit = name, op, unit
+
+    def __call__(self, a, b, **k):
+        if not has_sym([a, b]):
+            return getattr(_np, self.__name__)(a, b)
+        return self._op(asarray(a), b)
+
+    def reduce(self, arrays, axis=0, **k):
+        arrays = list(arrays)
+        if not has_sym(arrays):
+            return getattr(_np, self.__name__).reduce(arrays, axis=axis)
+        if axis != 0:
+            raise Unsupported(f"np.{self.__name__}.reduce along axis {axis}")
+        acc = None
+        for a in arrays:
+            acc = a if acc is None else self._op(asarray(acc), a)
+        return self._unit if acc is None else acc
+
+
+logical_or = _LogicalUfunc("logical_or", lambda a, b: a | b, _np.False_)
+logical_and = _LogicalUfunc("logical_and", lambda a, b: a & b, _np.True_)
+
+
 def absolute(x, **k):
     if isinstance(x, SA):
         return _map(lambda v: abs(Sc.of(v)), x)
@@ -789,8 +816,14 @@ def bincount(idx, weights=None, minlength=0):
 def allclose(a, b, rtol=1e-05, atol=1e-08, **k):
     if not has_sym([a, b]):
         return _np.allclose(a, b, rtol=rtol, atol=atol)
-    d = absolute(asarray(a) - asarray(b))
-    bound = atol + rtol * absolute(asarray(b))
+    aa, ba = asarray(a), asarray(b)
+    if isinstance(aa, SA) and isinstance(ba, SA) and aa.shape == ba.shape:
+        # structurally identical terms are equal (no query needed; numpy would compare equal floats)
+        fa, fb = aa.data.ravel(), ba.data.ravel()
+        if all(isinstance(x, Sc) and isinstance(y, Sc) and (x is y or (str(x.re) == str(y.re) and str(x.im) == str(y.im))) for x, y in zip(fa, fb)):
+            return True
+    d = absolute(aa - ba)
+    bound = atol + rtol * absolute(ba)
     return all_(d <= bound)
 
 
@@ -1056,6 +1089,8 @@ SHIMS = dict(
     cumsum=cumsum,
     dot=dot,
     outer=outer,
+    logical_or=logical_or,
+    logical_and=logical_and,
     matmul=matmul,
     isfinite=isfinite,
     void=void,
@@ -1105,6 +1140,8 @@ class NPFacade(types.ModuleType):
             return self._extra[name]
         if name in SHIMS:
             f = SHIMS[name]
+            if isinstance(f, _LogicalUfunc):
+                return f
             if callable(f) and not isinstance(f, type) and hasattr(_np, name) and not CTX.trace_calls:
                 real_f = getattr(_np, name)
 
